@@ -244,6 +244,11 @@ def main(run, tier):
     run.floor = 150
     from . import printfwd
     printfwd.add(run, tier)
+    # a printer leaves nothing behind, and no printer object or table is shared between calls (ownership obligations of C14):
+    # the depth argument below is per printer
+    from .c14 import frame_obligations as _fo
+    import contracts.frames as _cf
+    _fo(run, _cf.C14, 'C14')
     total = 0
     for prod in g.productions:
         runs, out = check_production(g, shapes, pr, prod)
